@@ -262,7 +262,15 @@ func (m *Map) Range(f func(k, v any) bool) {
 		s    string
 	}
 	var all []kv
-	m.m.Range(func(k, v any) bool { all = append(all, kv{k, v, fmt.Sprintf("%T:%v", k, k)}); return true })
+	// the snapshot is taken in one go, and nothing of the code under test runs inside the real Range: a key's String
+	// method may itself be instrumented (gen.PID formats its node name through a cached table), and a scheduling
+	// point in the middle of Go's randomly ordered map iteration made executions irreproducible
+	m.m.Range(func(k, v any) bool { all = append(all, kv{k: k, v: v}); return true })
+	vsched.NoPoints(func() {
+		for i := range all {
+			all[i].s = fmt.Sprintf("%T:%v", all[i].k, all[i].k)
+		}
+	})
 	sort.Slice(all, func(i, j int) bool { return all[i].s < all[j].s })
 	for _, e := range all {
 		if !f(e.k, e.v) {
